@@ -75,6 +75,11 @@ def gen(rng, tier):
         pm["wps"] = list(pm.get("wps") or []) + [{"id": "psub", "cap": rng.choice([1.0, 2.0, float("inf")]), "targets": [i], "inputs": [],
                                                    "facs": [{"id": "fsub", "skills": {"sub": 1.0}, "cost": 0.0}]}]
         pm.pop("reg_order", None)
+    elif rng.random() < 0.12:
+        # the sub-project task has no component but is registered as a targeted task of a workplace
+        pm["wps"] = list(pm.get("wps") or []) + [{"id": "pw", "cap": 1.0, "targets": [i], "inputs": [],
+                                                   "facs": [{"id": "fw", "skills": {"sub": 1.0}, "cost": 0.0}]}]
+        pm.pop("reg_order", None)
     preconf = rng.random() < 0.3
     pcfg = G.gen_cfg(rng, pp, max_time=None)
     pcfg["max_time"] = 2500
